@@ -158,4 +158,20 @@ theorem nil_constructors_registered_on_pinned (reg : List Bytes) (name : Bytes) 
     registerCompressionPinned reg name false false = reg ++ [name] := by
   simp [registerCompressionPinned, h]
 
+/-- **empty_message_is_zero_value** (round 13): a message frame of length zero - with or without
+    the compressed flag, with or without a compression pool, under any read limit - is the zero
+    value for *every* codec: neither the decompressor nor the codec is asked (a codec such as JSON
+    has no value that encodes as zero bytes, and a gzip stream of zero bytes is not a gzip stream). -/
+theorem empty_message_is_zero_value {Val : Type} (cfg : ReaderCfg Val) (fl : UInt8) (g : Nat)
+    (h : fl.toNat = 0 ∨ fl.toNat = Gen.flagCompressed) :
+    (unmarshalFrame cfg { outcome := .frame fl [], grown := g }).outcome = .msg none := by
+  simp [unmarshalFrame, h]
+
+/-- ... so flagged and unflagged empty messages are indistinguishable to the application -/
+theorem empty_message_flag_irrelevant {Val : Type} (cfg cfg' : ReaderCfg Val) (g : Nat) :
+    (unmarshalFrame cfg { outcome := .frame 0 [], grown := g }).outcome =
+      (unmarshalFrame cfg' { outcome := .frame (UInt8.ofNat Gen.flagCompressed) [], grown := g }).outcome := by
+  rw [empty_message_is_zero_value cfg 0 g (Or.inl rfl),
+    empty_message_is_zero_value cfg' _ g (Or.inr (by decide))]
+
 end ConnectModel.C08
